@@ -492,6 +492,11 @@ func lineTreeCase(c *core.Ctx, i int) {
 	pre := prelude()
 	content, line := v.content(f.src, pre)
 	line += f.offset
+	// round 16: what a file may open with in front of its first construct - blank lines, a byte order mark, a byte order mark
+	// followed by line breaks, white space only lines. Every line break counts, wherever it stands
+	opening := []string{"", "", "\n\n", "\ufeff", "\ufeff\n\n", "\ufeff\r\n\r\n", " \n\t\n", "\r\n\r\n\r\n", "\ufeff\n \n\ufeff\n", "\n\n\n\n\n\n\n"}[(i/10)%10]
+	content = opening + content
+	line += strings.Count(opening, "\n")
 	if v.file == "page.tw" {
 		files["page.tw"] = content
 	} else {
